@@ -110,6 +110,46 @@ func init() {
 		}
 		return fmt.Sprintf("k=%s v=%s c=%d", fmtInts(outK), fmtInts(outV), count)
 	})
+	// c15V ktype M K_1..K_n : keys k_i = K_i / M, values v_i = K_i % M (0 <= v_i < M); the less callback READS BOTH
+	// slices: (keys[i], values[i]) < (keys[j], values[j]) lexicographically (ties between equal keys broken by the
+	// value), so SliceBy must keep the values next to their keys WHILE it sorts. Output: the pairs re-composed.
+	register("c15V", func(toks []string) string {
+		ktype, m := atoi(toks[1]), atoi(toks[2])
+		ks := ints(toks[3:])
+		count := 0
+		n := len(ks)
+		outK := make([]int, n)
+		outV := make([]int, n)
+		if ktype == 1 {
+			keys := make([]string, n)
+			vals := make([]float64, n)
+			for i, k := range ks {
+				keys[i], vals[i] = strconv.Itoa(k/m), float64(k%m)
+			}
+			sortx.SliceBy(keys, vals, func(i, j int) bool {
+				count++
+				a, b := atoi(keys[i]), atoi(keys[j])
+				return a < b || (a == b && vals[i] < vals[j])
+			})
+			for i := range keys {
+				outK[i], outV[i] = atoi(keys[i])*m+int(vals[i]), int(vals[i])
+			}
+		} else {
+			keys := make([]int, n)
+			vals := make([]int, n)
+			for i, k := range ks {
+				keys[i], vals[i] = k/m, k%m
+			}
+			sortx.SliceBy(keys, vals, func(i, j int) bool {
+				count++
+				return keys[i] < keys[j] || (keys[i] == keys[j] && vals[i] < vals[j])
+			})
+			for i := range keys {
+				outK[i], outV[i] = keys[i]*m+vals[i], vals[i]
+			}
+		}
+		return fmt.Sprintf("k=%s v=%s c=%d", fmtInts(outK), fmtInts(outV), count)
+	})
 	// c15U x_1..x_n : UniqueInt ; result slice and the backing array after the call
 	register("c15U", func(toks []string) string {
 		a := ints(toks[1:])
